@@ -269,7 +269,13 @@ func main() {
 	}()
 	c.res.Evaluations = atomic.LoadInt64(&c.evals)
 	c.res.WallS = time.Since(t0).Seconds()
-	sort.Slice(c.res.Violations, func(i, j int) bool { return c.res.Violations[i].Key < c.res.Violations[j].Key })
+	sort.Slice(c.res.Violations, func(i, j int) bool {
+		a, b := c.res.Violations[i].Key, c.res.Violations[j].Key
+		if len(a) != len(b) {
+			return len(a) < len(b) // shortest input first: the easiest counterexample to read
+		}
+		return a < b
+	})
 	data, _ := json.MarshalIndent(&c.res, "", " ")
 	if *out == "" {
 		os.Stdout.Write(data)
